@@ -49,6 +49,8 @@ def run(chk: Check) -> None:
     run_module_tests_not_substrings(chk, ix)
     run_var_snapshot_flags(chk, ix)
     run_relative_import_ids(chk, ix)
+    run_stat_compared_for_equality(chk, ix)
+    run_typeinfo_snapshot_flags(chk, ix)
 
     r1 = chk.rule("R03.1", "reprocess_nodes performs snapshot < clear < strip < analyse < merge < check < snapshot < compare < update_deps on every normal path, returns the compared triggers, and the propagation loop re-queues error targets and resets protocol caches first", floor=12)
     rp = ix.func("mypy.server.update.reprocess_nodes")
@@ -754,3 +756,69 @@ def run_relative_import_ids(chk: Check, ix) -> None:
                 r15.violation(key, f.loc(reads[0]), f"`{norm(reads[0])}` is used as if it were an absolute module name; for `from . import b` it is the empty string (level in `.relative`), so the comparison never matches for relative imports")
     if n < 5:
         raise AnalysisError(f"only {n} functions reading ImportFrom/ImportAll ids found")
+
+
+def run_stat_compared_for_equality(chk: Check, ix) -> None:
+    """R03.16: `has this file changed` compares the recorded stat data for difference, not for order."""
+    r = chk.rule("R03.16", "fswatcher.FileSystemWatcher._find_changed decides from the recorded FileData (st_mtime, st_size, hash) whether a watched file is hashed again. Time stamps are not monotonic (cp -p, rsync -t, tar x, mv put an older mtime on new content), so every comparison between a current stat field and the recorded one is an equality test (`!=` / `==`): an order test (`>`) makes the daemon miss a same-size replacement with an older time stamp and keep the diagnostics of the previous content", floor=2)
+    f = ix.func("mypy.fswatcher.FileSystemWatcher._find_changed")
+    n = 0
+    for c in ast.walk(f.node):
+        if not isinstance(c, ast.Compare) or len(c.ops) != 1:
+            continue
+        sides = [norm(c.left), norm(c.comparators[0])]
+        if not (any("st." in s_ or s_.startswith("st.") for s_ in sides) and any("old." in s_ for s_ in sides)):
+            continue
+        n += 1
+        key = f"_find_changed: `{norm(c)[:70]}` is an (in)equality test"
+        if isinstance(c.ops[0], (ast.Eq, ast.NotEq)):
+            r.ok(key, f.loc(c))
+        else:
+            r.violation(key, f.loc(c), "an order comparison between the current and the recorded stat value: a file whose new content carries an older (or, for `<`, newer) time stamp and the same size is treated as unchanged and never re-hashed")
+    if n < 2:
+        raise AnalysisError(f"_find_changed: only {n} comparisons between current and recorded stat data found")
+
+
+def run_typeinfo_snapshot_flags(chk: Check, ix) -> None:
+    """R03.17: every boolean flag of a class that other modules' diagnostics depend on is part of the class's snapshot."""
+    r = chk.rule("R03.17", "TypeInfo.FLAGS lists the boolean properties of a class that are serialized with it (is_abstract, is_enum, is_protocol, runtime_protocol, is_final, ...): each of them changes what importers may do with the class (subclass it, use it in isinstance, instantiate it), so each is read by server/astdiff.snapshot_definition's TypeInfo entry, or tabled: a flag missing from the snapshot can flip without triggering the users of the class in the daemon; likewise FUNCBASE_FLAGS and the function entry", floor=13)
+    ti = ix.cls("mypy.nodes.TypeInfo")
+    flags_node = None
+    for a in ti.node.body:
+        if isinstance(a, (ast.Assign, ast.AnnAssign)):
+            tg = a.targets[0] if isinstance(a, ast.Assign) else a.target
+            if norm(tg) == "FLAGS":
+                flags_node = a.value
+    if flags_node is None:
+        raise AnalysisError("TypeInfo.FLAGS not found")
+    flags = [e.value for e in ast.walk(flags_node) if isinstance(e, ast.Constant) and isinstance(e.value, str)]
+    sd = ix.func("mypy.server.astdiff.snapshot_definition")
+    branch = None
+    for i in ast.walk(sd.node):
+        if isinstance(i, ast.If) and "isinstance(node, TypeInfo)" in norm(i.test):
+            branch = i
+    if branch is None:
+        raise AnalysisError("snapshot_definition: the TypeInfo entry was not found")
+    read = {x.attr for s in branch.body for x in ast.walk(s) if isinstance(x, ast.Attribute) and norm(x.value) == "node"}
+    # the same for the flags every function-like node has (FUNCBASE_FLAGS: is_property, is_class, is_static, is_final)
+    nodes_m = ix.module("mypy.nodes")
+    fb = [e.value for e in ast.walk(nodes_m.assigns["FUNCBASE_FLAGS"]) if isinstance(e, ast.Constant) and isinstance(e.value, str)] if "FUNCBASE_FLAGS" in nodes_m.assigns else []
+    fbranch = None
+    for i in ast.walk(sd.node):
+        if isinstance(i, ast.If) and "SYMBOL_FUNCBASE_TYPES" in norm(i.test):
+            fbranch = i
+    if len(fb) < 4 or fbranch is None:
+        raise AnalysisError(f"FUNCBASE_FLAGS {fb} / the function entry of snapshot_definition not found")
+    fread = {x.attr for s_ in fbranch.body for x in ast.walk(s_) if isinstance(x, ast.Attribute) and norm(x.value) == "node"}
+    for fl in fb:
+        key = f"FuncBase.{fl} is part of the function snapshot"
+        if fl in fread:
+            r.ok(key, sd.loc(fbranch))
+        else:
+            r.violation(key, sd.loc(fbranch), f"snapshot_definition's function entry does not read node.{fl}: adding `@final` / `@staticmethod` / `@classmethod` / `@property` to a method without changing its signature triggers nobody in the daemon")
+    for fl in flags:
+        key = f"TypeInfo.{fl} is part of the class snapshot"
+        if fl in read:
+            r.ok(key, sd.loc(branch))
+        else:
+            r.violation(key, sd.loc(branch), f"snapshot_definition does not read node.{fl}: when only this flag changes (e.g. `@final` added to a class, `@runtime_checkable` removed from a protocol) the class's snapshot is unchanged, no trigger fires and importers keep their old diagnostics in the daemon")
